@@ -352,3 +352,89 @@ spec fn pwo_cache_ok(c: Map<ZddRef, ZddRef>, nodes: Seq<ZddNode>, var: u32) -> b
     }
 }
 
+
+spec fn strictly_ascending(xs: Seq<u32>) -> bool {
+    forall|i: int, j: int| 0 <= i < j < xs.len() ==> xs[i] < xs[j]
+}
+
+// One step of the membership walk: with rest = xs[i..] (strictly ascending), at a node:
+//   var == xs[i]  -> continue in hi with xs[i+1..]
+//   var >  xs[i]  -> xs[i] can never appear below: not a member
+//   otherwise     -> continue in lo with xs[i..]
+// and at terminals: Base contains rest iff rest is empty.
+proof fn lemma_contains_step(nodes: Seq<ZddNode>, cur: ZddRef, xs: Seq<u32>, i: int)
+    requires nodes_ok(nodes), valid(cur, nodes.len() as int), strictly_ascending(xs), 0 <= i <= xs.len(),
+    ensures ({
+        let rest = xs.subrange(i, xs.len() as int).to_set();
+        match cur {
+            ZddRef::Empty => !mem(nodes, cur, rest),
+            ZddRef::Base => mem(nodes, cur, rest) == (i == xs.len()),
+            ZddRef::Node(id) => {
+                let nd = nodes[id as int];
+                if i < xs.len() && nd.var == xs[i] {
+                    mem(nodes, cur, rest) == mem(nodes, nd.hi, xs.subrange(i + 1, xs.len() as int).to_set())
+                } else if i < xs.len() && nd.var > xs[i] {
+                    !mem(nodes, cur, rest)
+                } else {
+                    mem(nodes, cur, rest) == mem(nodes, nd.lo, rest)
+                }
+            }
+        }
+    })
+{
+    let rest_seq = xs.subrange(i, xs.len() as int);
+    let rest = rest_seq.to_set();
+    match cur {
+        ZddRef::Empty => {}
+        ZddRef::Base => {
+            if i < xs.len() { assert(rest_seq[0] == xs[i]); assert(rest.contains(xs[i])); assert(!(rest =~= Set::<u32>::empty())); }
+            else { assert(rest_seq.len() == 0); assert(rest =~= Set::<u32>::empty()); }
+        }
+        ZddRef::Node(id) => {
+            let nd = nodes[id as int];
+            assert(node_ok(nodes, id as int));
+            if i < xs.len() && nd.var == xs[i] {
+                let tail = xs.subrange(i + 1, xs.len() as int);
+                assert(rest_seq[0] == xs[i]); assert(rest.contains(nd.var));
+                // rest - var == tail (strict ascent: var does not reappear)
+                assert(rest.remove(nd.var) =~= tail.to_set()) by {
+                    assert forall|x: u32| rest.remove(nd.var).contains(x) == tail.to_set().contains(x) by {
+                        if tail.to_set().contains(x) {
+                            let k = choose|k: int| 0 <= k < tail.len() && tail[k] == x;
+                            assert(rest_seq[k + 1] == x);
+                            assert(xs[i] < xs[i + 1 + k]);
+                        }
+                        if rest.remove(nd.var).contains(x) {
+                            let k = choose|k: int| 0 <= k < rest_seq.len() && rest_seq[k] == x;
+                            assert(k != 0);
+                            assert(tail[k - 1] == x);
+                        }
+                    }
+                }
+                // members of lo never contain var
+                if mem(nodes, nd.lo, rest) { lemma_elems_ge_top(nodes, nd.lo, rest, nd.var); }
+            } else if i < xs.len() && nd.var > xs[i] {
+                assert(rest_seq[0] == xs[i]); assert(rest.contains(xs[i]));
+                if mem(nodes, cur, rest) { lemma_elems_ge_top(nodes, cur, rest, xs[i]); }
+            } else {
+                // var not in rest: either rest is empty or var < xs[i] <= every element of rest
+                if rest.contains(nd.var) {
+                    let k = choose|k: int| 0 <= k < rest_seq.len() && rest_seq[k] == nd.var;
+                    assert(xs[i + k] == nd.var);
+                    if k > 0 { assert(xs[i] < xs[i + k]); }
+                    assert(false);
+                }
+            }
+        }
+    }
+}
+
+// node_map / remap tables used when copying nodes from a source table into a destination table
+spec fn remap_ok(m: Map<u32, ZddRef>, src: Seq<ZddNode>, dst: Seq<ZddNode>) -> bool {
+    forall|id: u32| #[trigger] m.contains_key(id) ==> {
+        &&& (id as int) < src.len()
+        &&& valid(m[id], dst.len() as int)
+        &&& top(dst, m[id]) >= src[id as int].var as int
+        &&& forall|s: Set<u32>| #[trigger] mem(dst, m[id], s) == mem(src, ZddRef::Node(id), s)
+    }
+}
